@@ -59,24 +59,30 @@ impl RcvdPacketQueue {
         self.one_rtt.close();
     }
 
+    /// Deliver a packet to the queue of its space.
+    ///
+    /// A full queue drops the packet, exactly as the network may: the caller is the receive
+    /// loop shared by every connection of the interface, and waiting here for a queue that is
+    /// only drained once the handshake has progressed (1-RTT packets are kept until the keys
+    /// are usable) would stop the delivery of the very packets that let it progress.
     pub async fn deliver(&self, packet: Packet, way: Way) {
         match packet {
             Packet::Data(packet) => match packet.header {
                 DataHeader::Long(long::DataHeader::Initial(header)) => {
                     let packet = CipherPacket::new(header, packet.bytes, packet.offset);
-                    _ = self.initial.send((packet, way)).await;
+                    _ = self.initial.try_send((packet, way));
                 }
                 DataHeader::Long(long::DataHeader::Handshake(header)) => {
                     let packet = CipherPacket::new(header, packet.bytes, packet.offset);
-                    _ = self.handshake.send((packet, way)).await;
+                    _ = self.handshake.try_send((packet, way));
                 }
                 DataHeader::Long(long::DataHeader::ZeroRtt(header)) => {
                     let packet = CipherPacket::new(header, packet.bytes, packet.offset);
-                    _ = self.zero_rtt.send((packet, way)).await;
+                    _ = self.zero_rtt.try_send((packet, way));
                 }
                 DataHeader::Short(header) => {
                     let packet = CipherPacket::new(header, packet.bytes, packet.offset);
-                    _ = self.one_rtt.send((packet, way)).await;
+                    _ = self.one_rtt.try_send((packet, way));
                 }
             },
             Packet::VN(_vn) => {}
